@@ -7,20 +7,9 @@
     a page the dump contains, [None] for a page it does not (excluded, or not
     RAM).  A layout fixes everything the format leaves to the writer. *)
 From Coq Require Import NArith List Bool.
-From KdV Require Import Fmt.Codec Fmt.BitmapSpec.
+From KdV Require Import Fmt.Codec Fmt.BitmapSpec Fmt.ImageSpec.
 Import ListNotations.
 Local Open Scope N_scope.
-
-Definition image := list (option bytes).
-
-(** what a read of page frame [pfn] must deliver *)
-Definition spec_read_page (img : image) (pgsz max_pfn : N) (zero_excluded : bool) (pfn : N)
-  : res bytes :=
-  if max_pfn <=? pfn then Err ERR_NODATA else
-  match nth_error img (N.to_nat pfn) with
-  | Some (Some content) => Ok content
-  | _ => if zero_excluded then Ok (zeros pgsz) else Err ERR_NODATA
-  end.
 
 (** a page as the writer stores it: descriptor flags + the stored bytes *)
 Record dd_page := { dp_flags : N; dp_payload : bytes }.
@@ -132,8 +121,6 @@ Fixpoint orb_lists (a b : list bool) : list bool :=
   | x :: a', y :: b' => (x || y) :: orb_lists a' b'
   end.
 
-Definition is_some {A} (o : option A) : bool := match o with Some _ => true | None => false end.
-
 (** the pages this file stores: those inside its window *)
 Fixpoint window (start_pfn end_pfn pfn : N) (pages : list (option dd_page))
   : list (option dd_page) :=
@@ -162,13 +149,6 @@ Fixpoint enc_data (pages : list (option dd_page)) : bytes :=
   | [] => []
   | None :: t => enc_data t
   | Some p :: t => dp_payload p ++ enc_data t
-  end.
-
-Fixpoint count_some {A} (l : list (option A)) : N :=
-  match l with
-  | [] => 0
-  | None :: t => count_some t
-  | Some _ :: t => 1 + count_some t
   end.
 
 Definition win_start (l : dd_layout) : N := if dl_split l then dl_start_pfn l else 0.
